@@ -23,7 +23,9 @@ CONSTANTS Widths,    \* id capacities (reply_data._max) a context is created wit
           MaxH,      \* deferred handle slots 1..MaxH
           MaxOwn,    \* owner references held at most (1 + contextRef calls)
           LimbDom,   \* limb values ids are built from (mode "id")
-          IdWidths   \* header widths of mode "id"
+          IdWidths,  \* header widths of mode "id"
+          MsgDom,    \* message payloads offered to reply calls
+          TextDom    \* <<code, text>> pairs offered to mpt_context_reply
 
 VARIABLES mode,
           max, target, own, attached, clen, cval, handles,   \* Tier 2
@@ -230,7 +232,7 @@ AddRef ==
 ---------------------------------------------------------------------------
 \* distinguishable request ids: width n, marker bit free, last byte counts
 IdBytes(n) == [i \in 1..n |-> IF i = n THEN (ctr % 100) + 1 ELSE IF i = 1 THEN 127 ELSE 0]
-Msgs == { [null |-> 0, data |-> <<0, 2, 104, 105>>], [null |-> 0, data |-> <<>>], NoMsg }
+Msgs == {[null |-> 0, data |-> d] : d \in MsgDom} \cup {NoMsg}
 TV   == {"ok", "reject"}
 
 InitCtx(m, t, at) ==
@@ -258,7 +260,7 @@ NextId ==
 NextCtx ==
   \/ \E n \in {0, 1, max, max + 1} : Arm(IdBytes(n)) \/ Arm(Zeros(n))
   \/ \E m \in Msgs, tv \in TV : Reply(m, tv)
-  \/ \E tv \in TV : ReplyText(2, <<111, 107>>, tv) \/ ReplyText(255, <<>>, tv)
+  \/ \E t \in TextDom, tv \in TV : ReplyText(t[1], t[2], tv)
   \/ \E h \in 1..MaxH : Defer(h) /\ \A k \in 1..(h - 1) : handles[k] # <<>>
   \/ \E h \in 1..MaxH, m \in Msgs, tv \in TV : DeferredReply(h, m, tv)
   \/ \E h \in 1..MaxH, tv \in TV : ReleaseHandle(h, tv)
